@@ -1422,9 +1422,13 @@ impl<T: Storage> Raft<T> {
                 }
             }
         } else if m.term < self.term {
-            // A node that cannot campaign (a learner) has no other way to make a
-            // leader at a lower term catch up with its term.
-            if (self.check_quorum || self.pre_vote || !self.promotable)
+            // A node that cannot campaign (a learner), or whose own configuration
+            // does not contain the sender yet (its vote requests never reach it), has
+            // no other way to make a leader at a lower term catch up with its term.
+            if (self.check_quorum
+                || self.pre_vote
+                || !self.promotable
+                || self.prs().get(m.from).is_none())
                 && (m.get_msg_type() == MessageType::MsgHeartbeat
                     || m.get_msg_type() == MessageType::MsgAppend)
             {
